@@ -4,8 +4,10 @@
          gets (CDB, combined and per family) equal longest-prefix match for EVERY set of <= K subnets on the toy
          address spaces ("01" / "001" / "011" as the IPv4 block), with the switches set as the code is.
 2. GEN : the same module prints every subnet set; each is embedded in the real address space (4 variants).
-3. RUN : real compilers (CDB, RocksDB v1/v2 = the range-point table of the real Rearranger) and the real readers
-         (Reader.ResolverLocation / Reader.EcsLocation) for every toy client, canonical and with host bits set.
+3. RUN : (a) the real dnsdata.Rearranger alone: its range-point table for every set, read with the predecessor rule of
+         the RocksDB driver (JudgeTable) - the property's first observation point; (b) real compilers (CDB, RocksDB v1/v2)
+         and the real readers (Reader.ResolverLocation / Reader.EcsLocation) for every toy client, canonical and with
+         host bits set - the second.
 4. TV  : ResolveTrace.tla / Lpm.tla judge every recorded lookup on the REAL addresses (JudgeLoc).
 Also: name-to-map step (exact before nearest enclosing wildcard), realistic random subnet sets.
 """
@@ -58,15 +60,18 @@ def add_set(script_lines, events, idx, sp, nets, variant, rng, tag):
     mid_r, mid_e = 0x5000 + 2 * idx, 0x5001 + 2 * idx
     script_lines.append(L("M", name, mapid=mid_r))
     script_lines.append(L("8", name, mapid=mid_e))
+    rp_nets, rp_clients = [], []
     for n in nets:
         val, rl = sp.real(n["start"], n["len"], variant)
         c = lpmgen.cidr(val, rl, n["fam"])
+        rp_nets.append((LOCS[n["loc"]], c))
         for mid in (mid_r, mid_e):
             script_lines.append(semlib.net(LOCS[n["loc"]], c, mid))
     for (fam, addr, plen) in lpmgen.toy_clients(sp):
         val, rl = sp.real(addr, plen, variant)
         if fam == 4 and rl < 96:
             continue
+        rp_clients.append((lpmgen.addr_text(val, fam), rl - (96 if fam == 4 else 0)))
         events.append(("8", name, (lpmgen.addr_text(val, fam), rl - (96 if fam == 4 else 0)), tag))
         if rl < 128 and rng.random() < 0.5:
             v1, _ = sp.real(addr, plen, variant, fill=1)              # host bits set: same subnet, same answer
@@ -77,6 +82,9 @@ def add_set(script_lines, events, idx, sp, nets, variant, rng, tag):
             for fill in (0, 1):
                 v2, _ = sp.real(addr, plen, variant, fill=fill)
                 events.append(("M", name, lpmgen.addr_text(v2, fam), tag))
+                rp_clients.append((lpmgen.addr_text(v2, fam), 32 if fam == 4 else 128))
+    # first observation point: the table of the real Rearranger for this set, before any database is involved
+    events.append(("rp", rp_nets, rp_clients, tag))
 
 
 def build_script(rng, sets, per_file=60):
@@ -92,6 +100,8 @@ def build_script(rng, sets, per_file=60):
         for kind, name, c, tag in events:
             if kind == "8":
                 s.loc("8", name, ecs=c, tag=tag)
+            elif kind == "rp":
+                s.rp(name, c, tag=tag)
             else:
                 s.loc("M", name, rip=c, tag=tag)
     return s, nsets
